@@ -63,6 +63,7 @@ InplaceOK(r) ==
         /\ PolyMat(t, r.m1, P, n, KT)
 
 Row(A, i) == <<A[i][1], A[i][2], A[i][3]>>
+MaxAbsOf3(A) == D!DMax(D!DMax(D!DSumAbs(Row(A, 1)), D!DSumAbs(Row(A, 2))), D!DSumAbs(Row(A, 3)))
 FrameOK(r) ==
     LET t == r.t
         A == Sq(t, r.m, 4)
@@ -99,9 +100,14 @@ FrameOK(r) ==
       [] r.fn = "nextFrame" ->
            \* in = <<Mi (16 numbers), pi, pj, ti, tj>>: the result's origin is pj and its x axis the new tangent
            LET Mi == Sq(t, r.in[1], 4)  pi == in(2)  pj == in(3)  ti == in(4)  tj == in(5) IN
-           (Generic(ti, tj) /\ SameDir(Row(Mi, 1), ti, ft)) =>
-              /\ ortho /\ SameDir(Row(A, 1), tj, ft)
-              /\ \A j \in 1..3 : D!DWithin(A[4][j], pj[j], D!DMul(FrameTol(t), D!DAdd(D!DOne, D!DAdd(D!DAbs(pj[j]), D!DAbs(pi[j])))))
+           /\ (Generic(ti, tj) /\ SameDir(Row(Mi, 1), ti, ft)) =>
+                 /\ ortho /\ SameDir(Row(A, 1), tj, ft)
+                 /\ \A j \in 1..3 : D!DWithin(A[4][j], pj[j], D!DMul(FrameTol(t), D!DAdd(D!DOne, D!DAdd(D!DAbs(pj[j]), D!DAbs(pi[j])))))
+           \* exactly parallel (or zero) tangents: no rotation, the previous frame moved by pj - pi
+           /\ (\A cc \in 1..3 : D!DIsZero(CrossV(ti, tj)[cc])) =>
+                 /\ \A i \in 1..3, j \in 1..3 : D!DWithin(A[i][j], Mi[i][j], D!DMul(FrameTol(t), D!DAdd(D!DOne, MaxAbsOf3(Mi))))
+                 /\ \A j \in 1..3 : D!DWithin(A[4][j], D!DAdd(Mi[4][j], D!DSub(pj[j], pi[j])),
+                                              D!DMul(FrameTol(t), D!DAdd(D!DOne, D!DAdd(D!DAbs(Mi[4][j]), D!DAdd(D!DAbs(pj[j]), D!DAbs(pi[j]))))))
       [] r.fn = "lastFrame" ->
            LET Mi == Sq(t, r.in[1], 4)  pi == in(2)  pj == in(3) IN
            \A j \in 1..3 : D!DWithin(A[4][j], D!DAdd(Mi[4][j], D!DSub(pj[j], pi[j])),
